@@ -140,7 +140,10 @@ def gen_pomdp(rng, abs_kind=None, smax=4, amax=3, omax=3, smin=1, amin=1, omin=1
     raise RuntimeError("gen_pomdp: no case")
 
 
-def gen_fsc(rng, nA, nO, style=None, nmax=3):
+def gen_fsc(rng, nA, nO, style=None, nmax=3, om3=False):
+    """om3: the node-transition strategy does not depend on the action; the case then also carries the
+    3-d array p(n'|n,o) ("om3"), which is what the evaluator is given (its second accepted input form);
+    "om" is always the 4-d p(n'|n,a,o) the model and the controller object use"""
     if style is None:
         style = rng.choice(["generic", "generic", "generic", "onehot_init", "shared", "det"])
     N = rng.randint(2 if style in ("generic", "onehot_init") and rng.random() < .8 else 1, nmax)
@@ -150,7 +153,11 @@ def gen_fsc(rng, nA, nO, style=None, nmax=3):
         pi = [list(r) for _ in range(N)]
     else:
         pi = [_row(rng, nA) for _ in range(N)]
-    if style == "det":
+    o3 = None
+    if om3:
+        o3 = [[(onehot(rng.randrange(N), N) if style == "det" else _row(rng, N)) for _ in range(nO)] for _ in range(N)]
+        om = [[[list(o3[n][o]) for o in range(nO)] for _ in range(nA)] for n in range(N)]
+    elif style == "det":
         om = [[[onehot(rng.randrange(N), N) for _ in range(nO)] for _ in range(nA)] for _ in range(N)]
     else:
         om = [[[_row(rng, N) for _ in range(nO)] for _ in range(nA)] for _ in range(N)]
@@ -159,7 +166,10 @@ def gen_fsc(rng, nA, nO, style=None, nmax=3):
     else:
         init = _row(rng, N, support=rng.sample(range(N), min(N, rng.randint(2, 3))))   # non-degenerate when N >= 2
     st = lambda x: [st(y) for y in x] if isinstance(x, list) else str(x)
-    return {"N": N, "pi": st(pi), "om": st(om), "init": st(init), "style": style}
+    out = {"N": N, "pi": st(pi), "om": st(om), "init": st(init), "style": style}
+    if o3 is not None:
+        out["om3"] = st(o3)
+    return out
 
 
 # ----------------------------------------------------------------------------
@@ -252,9 +262,20 @@ def gen_cases(rng, tier):
     cases = []
     n_eval = 36 if tier == "quick" else 600
     for i in range(n_eval):
-        pc = gen_pomdp(rng)
-        fc = gen_fsc(rng, pc["nA"], pc["nO"])
-        cases.append({"kind": "eval", "pomdp": pc, "fsc": fc, "hist_len": 3, "runs": 3, "run_seed": rng.randrange(10 ** 6), "max_steps": 6})
+        # input forms of stochastic_fsc_policy_evaluation_exact: node transitions 4-d p(n'|n,a,o) or 3-d p(n'|n,o)
+        # (broadcast over actions by the code; needs >= 2 actions and >= 2 observations to be told apart from a
+        # scrambled broadcast), with / without fsc_initial_state (always both), dtype float64 / float32
+        form3 = i % 3 == 0
+        if form3:
+            pc = gen_pomdp(rng, amin=2, omin=2, smin=2)
+            fc = gen_fsc(rng, pc["nA"], pc["nO"], om3=True, style=rng.choice(["generic", "generic", "onehot_init", "det"]))
+            if fc["N"] == 1:      # one node: every broadcast is the same
+                fc = gen_fsc(rng, pc["nA"], pc["nO"], om3=True, style="generic")
+        else:
+            pc = gen_pomdp(rng)
+            fc = gen_fsc(rng, pc["nA"], pc["nO"])
+        cases.append({"kind": "eval", "pomdp": pc, "fsc": fc, "hist_len": 3, "runs": 3, "run_seed": rng.randrange(10 ** 6), "max_steps": 6,
+                      "om_form": "3d" if form3 else "4d", "eval_dtype": "float32" if i % 6 in (3, 4) else "float64"})
     n_bpi = 9 if tier == "quick" else 90
     for i in range(n_bpi):
         kind = ["none", "none", "benign", "paying"][i % 4] if tier == "quick" else rng.choice(["none", "none", "benign", "paying"])
@@ -336,6 +357,7 @@ def run(ctx):
              "fsc_det": 0, "nodes_1": 0, "nodes_2": 0, "nodes_3plus": 0}
     distinct = set()
     nruns = 0
+    forms = {}
     for i, (case, res) in enumerate(zip(cases, impl)):
         pc = case["pomdp"]
         if "error" in res:
@@ -357,9 +379,13 @@ def run(ctx):
                 report("C09:evaluator:raises:" + evr["error"].split(":")[0], {"case": case, "error": evr["error"]}, found=True)
             elif not all_num(evr["V"]) or not is_num(evr["expected_value"]):
                 report("C09:evaluator:nonfinite-value", {"case": case, "impl": evr}, found=True)
+            elif evr.get("V_noinit") != evr["V"] or evr.get("noinit_has_value"):
+                report("C09:evaluator:result-depends-on-fsc_initial_state", {"case": case, "impl": evr}, found=True)
             else:
                 sc = scale_of(evr["V"])
-                tol, vtol, M = F(1, 10 ** 9) * sc, F(1, 10 ** 9) * sc, sc
+                f32 = case.get("eval_dtype") == "float32"
+                tol, vtol, M = (F(1, 10 ** 3) if f32 else F(1, 10 ** 9)) * sc, (F(1, 10 ** 3) if f32 else F(1, 10 ** 9)) * sc, sc
+                forms["%s/%s" % (case.get("om_form", "4d"), case.get("eval_dtype", "float64"))] = forms.get("%s/%s" % (case.get("om_form", "4d"), case.get("eval_dtype", "float64")), 0) + 1
                 k = KSTEPS[pc["gamma"]]
                 terms.append("ev %s %s %s %s %s %s %s %s" % (pt, ft, qmat(evr["V"]), q(evr["expected_value"]), q(tol), q(vtol), q(M), nat(k)))
                 meta.append(("ev", i, {"tol": tol, "M": M, "k": k}))
@@ -577,5 +603,5 @@ def run(ctx):
         "history_cases": hist_total, "history_cases_object_equals_semantics": hist_equal,
         "history_cases_object_differs_from_semantics": hist_defect, "history_cases_mirror_drift": hist_drift, "history_cases_covered_by_partial_theorems": hist_theorem_cases,
         "signature_counts": report.counts,
-        "input_features": feats, "cases": len(cases),
+        "input_features": feats, "evaluator_input_forms": forms, "cases": len(cases),
     })
